@@ -242,6 +242,8 @@ def run_C08(ctx, E):
 def run_C07(ctx, E):
     os.environ["VERIF_TIER_INTERNAL"] = ctx.tier
     stage_mc_replay(ctx, E, "eligible", "C07_MC", "C07_MC_%s.cfg" % ctx.tier)
+    # histories: one live table re-weighted in place and optimised in between (what Optimize emits depends on the current weights only)
+    stage_mc_replay(ctx, E, "session", "C07_Session", "C07_Session_%s.cfg" % ctx.tier, prop="C07S")
     stage_record_trace(ctx, E, "opt", "C07_Trace", "C07_Trace.cfg", heap="8g")
     # the specification beyond the listed properties: GetCodingRegions, random.ProteinSequence, codon-table JSON files
     # (advisory: these calls are not part of property C07, so a mismatch is reported as a NOTE, never as a C07 violation)
@@ -307,6 +309,11 @@ def run_C09(ctx, E):
 
 def run_C13(ctx, E):
     stage_mc_replay(ctx, E, "stream", "C13_MC", "C13_MC_%s.cfg" % ctx.tier)
+    # directed schedules: every interleaving of reader hand-outs and consumer receives, driven through the real parser
+    _, summ = stage_mc_replay(ctx, E, "sched", "C13_Sched", "C13_Sched_%s.cfg" % ctx.tier, prop="C13D")
+    E.log("sched: %d of %d schedules followed step by step by the real parser (the rest judged on the outcome only)"
+          % (summ.get("nontrivial", 0), summ["total"]))
+    ctx.stage_info[-1]["schedules_followed_step_by_step"] = summ.get("nontrivial", 0)
     drv = ctx.drv
     if ctx.tier == "thorough":
         drv = E.build_driver(ctx.work, race=True)
